@@ -13,8 +13,12 @@ var builtins map[string]builtin
 
 func init() {
 	builtins = map[string]builtin{
-		"=/2": func(m *Machine, g *T, fr *frame) (bool, *T) { return m.unify(g.Args[0], g.Args[1]), nil },
+		"=/2": func(m *Machine, g *T, fr *frame) (bool, *T) {
+			m.noteSTO([][2]*T{{g.Args[0], g.Args[1]}})
+			return m.unify(g.Args[0], g.Args[1]), nil
+		},
 		"\\=/2": func(m *Machine, g *T, fr *frame) (bool, *T) {
+			m.noteSTO([][2]*T{{g.Args[0], g.Args[1]}})
 			mark := len(m.trail)
 			ok := m.unify(g.Args[0], g.Args[1])
 			m.undoTo(mark)
